@@ -46,6 +46,11 @@ ASSUMPTIONS = ['every task ends within the 10 s bound of future.result(10) (a sl
                'submit_task and flush are not in the middle of each other (the statement says "previously accepted")']
 
 WAIT = 20.0
+POOL_STALL = 5.0      # real pool: an accepted task that no worker picks up within this is reported as stalled
+
+
+class Stalled(Exception):
+    """the implementation made no progress within a generous bound: reported as an observation, judged by the oracle"""
 OUTCOMES = ['ok', 'unconvertible', 'send_exc', 'send_base', 'dies_exc', 'dies_base']
 
 
@@ -78,6 +83,7 @@ class Job:
         self.cb_released = False
         self.finished = False
         self.cb_done = False
+        self.escaped = None           # exception that escaped from the done-callbacks on the worker thread
         self.thread = None
         self.go = threading.Event()
         self.cb_go = threading.Event()
@@ -109,14 +115,18 @@ class StepPool:
             job.future.set_exception(TimeoutError('body gate'))
             return
         try:
-            r = job.fn(*job.args)
-        except BaseException as e:  # noqa: B902 — what a pool worker does
-            job.future.set_exception(e)
-        else:
-            job.future.set_result(r)
-        job.finished = True
-        job.at = 'end'
-        job.event.release()
+            try:
+                r = job.fn(*job.args)
+            except BaseException as e:  # noqa: B902 — what a pool worker does
+                job.future.set_exception(e)       # runs the done-callbacks; only Exception is shielded there
+            else:
+                job.future.set_result(r)
+        except BaseException as e:  # noqa: B902 — escaped from a done-callback: a real pool worker dies of this
+            job.escaped = f'{type(e).__name__}: {e}'
+        finally:
+            job.finished = True
+            job.at = 'end'
+            job.event.release()
 
     def current_job(self):
         return getattr(self.local, 'job', None)
@@ -289,7 +299,7 @@ class Bench:
 
     def wait_job(self, job, what):
         if not job.event.acquire(timeout=WAIT):
-            raise core.Infra(f'task {job.idx}: no progress after {what} in {WAIT} s')
+            raise Stalled(f'task {job.idx}: no progress after {what} in {WAIT} s')
 
     def do_start(self, jid):
         job = self.job(jid)
@@ -359,8 +369,16 @@ class Bench:
             if not first and at is not None and not at.done():
                 return
             if not self.flush_event.acquire(timeout=WAIT):
-                raise core.Infra('flush thread made no progress in %s s' % WAIT)
+                raise Stalled('flush thread made no progress in %s s' % WAIT)
             first = False
+
+    def dead_workers(self):
+        if self.pool is not None:
+            return 0
+        try:
+            return len([t for t in self.handler._pool._threads if not t.is_alive()])
+        except Exception:
+            return 0
 
     def fut_state(self, f):
         return 'done' if f.done() else 'running' if f.running() else 'queued'
@@ -379,7 +397,8 @@ class Bench:
                           'runs': len(bodies.get(k, [])), 'sends': len([1 for kk, _ in sends if kk == k]),
                           'on_caller': any(t == self.caller for t in bodies.get(k, [])) or
                           any(t == self.caller for kk, t in sends if kk == k)})
-        return {'caller_sends': sorted(kk for kk, t in sends if t == self.caller and kk is not None),
+        escaped = [[j.idx, j.escaped] for j in self.pool.jobs if j.escaped] if self.pool else []
+        return {'escaped': escaped, 'dead_workers': self.dead_workers(), 'caller_sends': sorted(kk for kk, t in sends if t == self.caller and kk is not None),
                 'open': bool(self.handler._open), 'pending': sorted(dict.keys(self.handler._pending)),
                 'flush': self.flush_outcome or 'idle', 'refused': len(self.refused),
                 'refusals': [[k, name, exc] for k, name, exc in self.refused], 'tasks': tasks,
@@ -431,6 +450,9 @@ def run_det(case):
                 raise core.Infra('unknown step ' + s)
             trace.append(b.observe())
         return {'trace': trace, 'flush_error': getattr(b, 'flush_error', None)}
+    except Stalled as e:
+        return {'trace': trace, 'flush_error': getattr(b, 'flush_error', None), 'stalled': str(e),
+                'at_stall': b.observe()}
     finally:
         b.close()
 
@@ -439,7 +461,7 @@ def run_pool(case):
     """real ThreadPoolExecutor(2): tasks block inside send until released"""
     b = Bench('pool', case['outcomes'])
     try:
-        gated = lambda k: b.outcomes[k] in ('ok', 'send_exc', 'send_base')   # noqa: E731
+        gated = lambda k: b.outcomes[k] in ('ok', 'send_exc', 'send_base')   # noqa: E731  (others end at once)
         running = []           # job ids (1-based) whose body is blocked in send
         waiting = []           # accepted, not yet taken by a worker
         done = []
@@ -449,8 +471,9 @@ def run_pool(case):
                 jid = waiting.pop(0)
                 k = b.accepted[jid - 1]
                 if gated(k):
-                    if not b.at_send[k].wait(WAIT):
-                        raise core.Infra('pool task %d did not reach send' % jid)
+                    if not b.at_send[k].wait(POOL_STALL):
+                        raise Stalled('task %d was accepted but no pool worker started it within %s s '
+                                      '(%d of the pool\'s worker threads are dead)' % (jid, POOL_STALL, b.dead_workers()))
                     running.append(jid)
                 else:
                     wait_done(jid)
@@ -459,8 +482,9 @@ def run_pool(case):
             f = b.futures[jid - 1]
             t0 = time.time()
             while not f.done():
-                if time.time() - t0 > WAIT:
-                    raise core.Infra('pool task %d did not finish' % jid)
+                if time.time() - t0 > POOL_STALL:
+                    raise Stalled('task %d did not finish within %s s of being released (%d dead pool workers)'
+                                  % (jid, POOL_STALL, b.dead_workers()))
                 time.sleep(0.001)
             done.append(jid)
 
@@ -505,12 +529,17 @@ def run_pool(case):
         if b.flush_thread is not None and all_released:
             b.flush_thread.join(WAIT)
             if b.flush_thread.is_alive():
-                raise core.Infra('flush did not return although every task is finished')
+                raise Stalled('flush did not return within %s s although every task is finished' % WAIT)
         # let the done-callbacks (run by the pool threads after waiters are woken) finish
         t0 = time.time()
         while all_released and dict.keys(b.handler._pending) and time.time() - t0 < 5:
             time.sleep(0.002)
+        if any(b.outcomes[k] in ('send_base', 'dies_base') for k in b.accepted):
+            time.sleep(0.05)         # a worker killed by an escaping exception needs a moment to be seen dead
         return {'final': b.observe(), 'flush_error': getattr(b, 'flush_error', None), 'complete': all_released}
+    except Stalled as e:
+        return {'final': b.observe(), 'flush_error': getattr(b, 'flush_error', None), 'complete': False,
+                'stalled': str(e)}
     finally:
         b.close()
 
@@ -588,14 +617,21 @@ def gen_det(rng, tier):
     return {'mode': 'det', 'outcomes': outcomes[:max(pushed, 1)], 'sched': sched}
 
 
-def gen_pool(rng, tier):
+def gen_pool(rng, tier, base_first=False):
     n = rng.randint(1, 5)
-    outcomes = [rng.choice(['ok', 'send_exc', 'send_base', 'send_base', 'unconvertible']) for _ in range(n + 1)]
+    outcomes = [rng.choice(['ok', 'send_exc', 'send_base', 'send_base', 'unconvertible', 'dies_base'])
+                for _ in range(n + 1)]
+    if base_first:
+        # two or three BaseException-class failures (in send / in convert) first, then healthy snapshots
+        k = rng.randint(2, 3)
+        n = k + rng.randint(1, 3)
+        outcomes = [rng.choice(['send_base', 'send_base', 'dies_base']) for _ in range(k)] + \
+                   [rng.choice(['ok', 'ok', 'send_exc']) for _ in range(n - k + 1)]
     sched = [{'s': 'push'} for _ in range(n)]
     order = list(range(1, n + 1))
     # release order: the pool is FIFO with 2 workers; among the (up to 2) running tasks any may finish first
     running, waiting = [], list(order)
-    gated = lambda j: outcomes[j - 1] != 'unconvertible'   # noqa: E731
+    gated = lambda j: outcomes[j - 1] not in ('unconvertible', 'dies_base')   # noqa: E731
     fin = []
 
     def admit():
@@ -623,7 +659,7 @@ def gen(rng, tier):
     while True:
         k += 1
         if k % 12 == 0:
-            yield gen_pool(rng, tier)
+            yield gen_pool(rng, tier, base_first=(k % 24 == 0))
         else:
             yield gen_det(rng, tier)
 
@@ -637,6 +673,12 @@ def corpus():
         # D12: a failing task is still running when flush starts
         {'mode': 'det', 'outcomes': ['send_exc'], 'sched': [P, st(1), F, fi(1), cb(1)]},
         {'mode': 'pool', 'outcomes': ['send_exc', 'ok'], 'sched': [P, P, F, fi(1), fi(2)]},
+        # two sends fail with a BaseException, then healthy snapshots, then flush: the workers must survive
+        {'mode': 'pool', 'outcomes': ['send_base', 'send_base', 'ok', 'ok'],
+         'sched': [P, P, P, P, fi(1), fi(2), fi(3), F, fi(4)]},
+        {'mode': 'pool', 'outcomes': ['dies_base', 'dies_base', 'dies_base', 'ok'], 'sched': [P, P, P, P, fi(4), F]},
+        {'mode': 'det', 'outcomes': ['send_base', 'dies_base', 'ok'],
+         'sched': [P, P, P, st(1), fi(1), cb(1), st(2), fi(2), cb(2), st(3), fi(3), cb(3), F]},
         # flush passes a finished task whose callback has not run yet; push after close
         {'mode': 'det', 'outcomes': ['ok', 'send_base', 'unconvertible', 'ok'],
          'sched': [P, P, st(2), st(1), P, fi(1), F, P, fi(2), st(3), cb(2), fi(3), cb(1), cb(3)]},
@@ -682,6 +724,14 @@ def judge_state(case, o, where, pushes_after_close, outs):
             if t['sends'] != expected_sends(out):
                 v.append(f'{where}: finished task {t["id"]} ({out}): {t["sends"]} send attempts, expected '
                          f'{expected_sends(out)}')
+    for jid, what in o.get('escaped', []):
+        v.append(f'{where}: {what} escaped from the done-callbacks of task {jid} on its worker thread (a pool worker '
+                 f'dies of this: the failure is not contained)')
+    if o.get('dead_workers'):
+        v.append(f'{where}: {o["dead_workers"]} worker thread(s) of the pool died')
+    for k, name, is_exc in o['refusals']:
+        if name not in ('IllegalStateException', 'silently-not-submitted'):
+            v.append(f'{where}: push_snapshot of snapshot {k} raised {name} on the application thread')
     if o['caller_sends']:
         v.append(f'{where}: snapshot(s) {o["caller_sends"]} were sent on the application thread that pushed them')
     if o['stray_sends']:
@@ -701,6 +751,8 @@ def judge_state(case, o, where, pushes_after_close, outs):
 def oracle(case, obs):
     outs = accepted_outcomes(case, None)
     v = []
+    if obs.get('stalled'):
+        v.append('no progress: ' + obs['stalled'])
     if case['mode'] == 'pool':
         o = obs['final']
         v += judge_state(case, o, 'at the end', 0, outs)
@@ -713,11 +765,13 @@ def oracle(case, obs):
                 v.append(f'all callbacks ran but the pending map still holds {o["pending"]}')
         want_ref = sum(1 for i, st in enumerate(case['sched']) if st['s'] == 'push'
                        and any(x['s'] == 'flushBegin' for x in case['sched'][:i]))
-        if o['refused'] != want_ref:
+        if o['refused'] != want_ref and not obs.get('stalled'):
             v.append(f'{want_ref} push(es) came after flush closed the handler, {o["refused"]} were refused visibly')
         return v[:4]
     closed = False
     want_ref = 0
+    if obs.get('stalled') and 'at_stall' in obs:
+        v += judge_state(case, obs['at_stall'], 'when progress stopped', 0, outs)
     for n, (st, o) in enumerate(zip(case['sched'], obs['trace'])):
         where = f'after step {n} ({st["s"]}{" " + str(st["id"]) if "id" in st else ""})'
         if st['s'] == 'flushBegin':
@@ -751,7 +805,7 @@ def pool_model_sched(case):
         while waiting and len(running) < 2:
             j = waiting.pop(0)
             out.append({'s': 'start', 'id': j, 'w': len(running)})
-            if outs[j - 1] == 'unconvertible':
+            if outs[j - 1] in ('unconvertible', 'dies_base'):
                 out.append({'s': 'finish', 'id': j})
                 out.append({'s': 'callback', 'id': j})
             else:
@@ -803,6 +857,8 @@ def cmp_state(m, o, where, with_cb=True):
 def compare(case, obs, resp):
     if 'error' in resp:
         return ['model error: ' + resp['error']]
+    if obs.get('stalled'):
+        return ['implementation stalled: ' + obs['stalled']]
     if case['mode'] == 'pool':
         if not obs['complete']:
             return []
